@@ -180,20 +180,20 @@ void ctx_save_contract(void * from)
   __CPROVER_assigns(g_ctx_saved) __CPROVER_ensures(g_ctx_saved == 1);
 
 /* hand the main thread to a worker's run queue: only after its context was saved, at most once per switch */
+#define TGT_IDX (TH.env - g_pool)                   /* index of the descriptor the thread is being handed to */
 int trypass_contract(myth_thread_queue_t q, struct myth_thread * th)
-  __CPROVER_requires(g_ctx_saved == 1 && g_passed == 0 && th == &TH && 0 <= g_tidx && g_tidx < g_nw)
-  __CPROVER_requires((q == &g_pool[g_tidx].runnable_q && TH.env == &g_pool[g_tidx]) || (q == &g_pool[0].runnable_q && TH.env == &g_pool[0]))
-  __CPROVER_requires(g_refusals >= 0)
+  __CPROVER_requires(g_ctx_saved == 1 && g_passed == 0 && th == &TH && g_refusals >= 0)
+  __CPROVER_requires(__CPROVER_same_object(TH.env, g_pool) && 0 <= TGT_IDX && TGT_IDX < g_nw && q == &g_pool[TGT_IDX].runnable_q)   /* thread's env = the queue's worker */
   __CPROVER_assigns(g_passed, g_passed_rank, g_refusals)
   __CPROVER_ensures(__CPROVER_return_value == 0 || __CPROVER_return_value == 1)
   __CPROVER_ensures(g_refusals == __CPROVER_old(g_refusals) - (1 - __CPROVER_return_value) && g_refusals >= 0)
   __CPROVER_ensures(g_passed == __CPROVER_return_value)
-  __CPROVER_ensures(__CPROVER_return_value == 1 ==> g_passed_rank == (q == &g_pool[g_tidx].runnable_q ? g_tidx : 0));
+  __CPROVER_ensures(__CPROVER_return_value == 1 ==> g_passed_rank == TGT_IDX);
 
 int random_contract(int min, int max)             /* floating-point body not analysed: assumed to return a value in [min, max) */
   __CPROVER_requires(min < max)
-  __CPROVER_assigns(g_tidx)
-  __CPROVER_ensures(min <= __CPROVER_return_value && __CPROVER_return_value < max && g_tidx == __CPROVER_return_value);
+  __CPROVER_assigns()
+  __CPROVER_ensures(min <= __CPROVER_return_value && __CPROVER_return_value < max);
 
 /* the thread is resumed by the worker whose queue accepted it (the main thread is never stolen: myth_steal_body puts it
    back), on that worker's OS thread; that worker's descriptor then names it as the running thread -- the harness
@@ -334,7 +334,6 @@ void h_exit_ex(void) {
   setup_migration();
   int rank = nondet_int();
   __CPROVER_assume(0 <= rank && rank < g_nw);
-  g_tidx = rank;
   int r0 = g_worker_rank;
   int flag_k = POOL[g_k].exit_flag;
   myth_startpoint_exit_ex_body(rank);
